@@ -18,7 +18,8 @@ type Profile struct {
 	Poison            bool
 	SlowFlushPercent  int
 	SlowRemovePercent int
-	DetPercent        int // percentage of cases with deterministic layout (wait for idle after every write)
+	StrictVariants    bool // draw Options.Strict from {default, NoStrict, StrictAll}: must be invisible without faults
+	DetPercent        int  // percentage of cases with deterministic layout (wait for idle after every write)
 	MaxVal            int
 	Comparers         []string
 	Tweak             func(t *rapid.T, o *gen.OptSpec)
@@ -85,6 +86,9 @@ func Draw(t *rapid.T, p *Profile) *Case {
 	nk := len(c.Keys)
 	if p.SlowFlushPercent > 0 {
 		c.SlowFlush = rapid.SampledFrom([]int{5, 15, 25, 35, 45, 55, 65, 75, 85, 95}).Draw(t, "slowflush") < p.SlowFlushPercent
+	}
+	if p.StrictVariants {
+		c.Opts.Strict = rapid.SampledFrom([]int{0, 0, 1, 2}).Draw(t, "strict")
 	}
 	if p.SlowRemovePercent > 0 {
 		c.SlowRemove = rapid.SampledFrom([]int{5, 15, 25, 35, 45, 55, 65, 75, 85, 95}).Draw(t, "slowremove") < p.SlowRemovePercent
